@@ -132,3 +132,20 @@ func Harness_C06_Malformed() {
 			"decoding succeeds only when the length field equals the digest length and nothing trails")
 	}
 }
+
+// Harness_C06_RawDocuments: documents handed over as bytes: a malformed one (a bare token that is not a JSON value at
+// the place of a number) has no model hash and does not validate against the hash of the document with 0 there.
+func Harness_C06_RawDocuments() {
+	code := []uint{0x12, 0x13}[verifrt.Choose("alg", 2)]
+	good := []byte(`{"name":"n","version":0}`)
+	bad := [][]byte{[]byte(`{"name":"n","version":x}`), []byte(`{"name":"n","version":True}`), []byte(`{"name":"n","version":0z}`), []byte(`{"name":"n","version":nul}`)}[verifrt.Choose("malformed", 4)]
+	h, err := CalculateModelMultihash(good, code)
+	if err != nil {
+		verifrt.Fail("a well-formed document has no model hash")
+		return
+	}
+	verifrt.Reach("hashed")
+	_, berr := CalculateModelMultihash(bad, code)
+	verifrt.Assert(berr != nil, "a malformed document has no model hash")
+	verifrt.Assert(IsValidModelMultihash(bad, h) != nil, "a malformed document does not validate against the hash of a well-formed one")
+}
